@@ -24,6 +24,7 @@ def run(chk, F):
         chk.guard("lexer-not-recursive", "gnu_units lexer", lambda: lexer_not_recursive(chk, F))
     chk.guard("cycle-guard", "Resolver::visit", lambda: L.visit_structure(chk, F))
     chk.guard("cycle-guard", "load_defs", lambda: L.alias_cycle_guard(chk, F))
+    chk.guard("cycle-guard", "driver", lambda: L.driver_progress(chk, F))
     chk.guard("errors-reported", "load_defs", lambda: L.errors_reported(chk, F))
     chk.guard("errors-reported", "load_defs inserts", lambda: L.input_inserts_checked(chk, F))
     chk.guard("temporaries-cleared", "load_defs", lambda: shared_rules.temporaries_cleared(chk, F))
